@@ -1194,6 +1194,10 @@ class _WireReader:
                     self.message.opt = dns.rrset.from_rdata(name, ttl, rd)
                 elif rdtype == dns.rdatatype.TSIG:
                     trd = cast(dns.rdtypes.ANY.TSIG.TSIG, rd)
+                    if ttl != 0:
+                        # RFC 8945 section 4.2: the TTL MUST be 0; it is one of
+                        # the digested TSIG variables, and we digest a zero.
+                        raise BadTSIG
                     if self.keyring is None or self.keyring is True:
                         raise UnknownTSIGKey("got signed message without keyring")
                     elif isinstance(self.keyring, dict):
